@@ -89,12 +89,14 @@ type c14Coll struct {
 	name  string
 	build func(w *model.World)
 	tail  bool
+	big   bool // megabytes of state: write errors surface while blocks are being written, not only at the final flush
 }
 
 type c14Built struct {
 	c      c14Coll
 	nCalls int // write calls of a healthy snapshot
 	nBytes int
+	frames []int // s2 frame boundaries of the healthy stream (big collections)
 }
 
 func (c c14Coll) world() *model.World {
@@ -119,7 +121,11 @@ func (c c14Coll) measure() *c14Built {
 	if err := w.C.Snapshot(fw); err != nil {
 		panic(fmt.Sprintf("C14 %s: healthy snapshot failed: %v", c.name, err))
 	}
-	return &c14Built{c: c, nCalls: fw.calls, nBytes: fw.buf.Len()}
+	b := &c14Built{c: c, nCalls: fw.calls, nBytes: fw.buf.Len()}
+	if c.big {
+		b.frames = s2FrameBoundaries(fw.buf.Bytes())
+	}
+	return b
 }
 
 // snapshotCounted runs one Snapshot call with the garbage collector off (a leaked
@@ -196,8 +202,21 @@ func (b *c14Built) run(byCall bool, at int, forever bool) (key string, nontrivia
 		vs = append(vs, eng.Violation{Assert: "leak/tempfile", Witness: leakWitness(fw.failed > 0, "temp file"),
 			Detail: fmt.Sprintf("%s: column_*.log files in TMPDIR changed by %+d across the Snapshot call", desc, dtmp)})
 	}
-	// the collection keeps working
-	res := w.Txn([]model.Act{{Op: "insert", W: []model.Write{{Col: "n", V: model.Val{N: 7}}, {Col: "e", V: model.Val{S: "x"}}}}}, false)
+	// the collection keeps working: a transaction that commits into EVERY block
+	acts := []model.Act{{Op: "insert", W: []model.Write{{Col: "n", V: model.Val{N: 7}}, {Col: "e", V: model.Val{S: "x"}}}}}
+	seenBlk := map[uint32]bool{}
+	for _, off := range w.M.Offsets() {
+		if !seenBlk[off>>14] {
+			seenBlk[off>>14] = true
+			acts = append(acts, model.Act{Op: "put", Off: off, W: []model.Write{{Col: "n", V: model.Val{N: 1}, Merge: true}}})
+		}
+	}
+	var res model.TxnRes
+	if !within(c14Patience, func() { res = w.Txn(acts, false) }) {
+		w.Poisoned = true
+		return key, true, sample, append(vs, eng.Violation{Assert: "usable/commit", Witness: "a transaction never completes after a failed snapshot",
+			Detail: fmt.Sprintf("%s: a transaction committing into every block did not return within %v", desc, c14Patience)})
+	}
 	vs = append(vs, res.Viol...)
 	if res.Err != nil {
 		vs = append(vs, eng.Violation{Assert: "usable/commit", Witness: "a transaction fails after a failed snapshot", Detail: fmt.Sprintf("%s: %v", desc, res.Err)})
@@ -211,7 +230,14 @@ func (b *c14Built) run(byCall bool, at int, forever bool) (key string, nontrivia
 	}
 	// a later snapshot to a healthy writer succeeds, leaks nothing, restores correctly
 	var good bytes.Buffer
-	err2, dfd2, dtmp2, p2 := snapshotCounted(w, &good)
+	var err2 error
+	var dfd2, dtmp2 int
+	var p2 any
+	if !within(c14Patience, func() { err2, dfd2, dtmp2, p2 = snapshotCounted(w, &good) }) {
+		w.Poisoned = true
+		return key, true, sample, append(vs, eng.Violation{Assert: "usable/later-snapshot", Witness: "a later snapshot never completes",
+			Detail: fmt.Sprintf("%s: a later Snapshot to a healthy writer did not return within %v", desc, c14Patience)})
+	}
 	if p2 != nil {
 		w.Poisoned = true
 		return key, true, sample, append(vs, eng.Violation{Assert: "no-panic", Witness: "a later Snapshot panicked", Detail: fmt.Sprintf("%s: %v", desc, p2)})
@@ -244,6 +270,22 @@ func (b *c14Built) run(byCall bool, at int, forever bool) (key string, nontrivia
 	return key, true, sample, vs
 }
 
+// within runs f and reports whether it returned within d (real time). Every
+// operation here normally takes micro- or milliseconds; the generous limit only turns
+// "blocks forever" into a verdict instead of a hung worker.
+func within(d time.Duration, f func()) bool {
+	done := make(chan struct{})
+	go func() { defer close(done); f() }()
+	select {
+	case <-done:
+		return true
+	case <-time.After(d):
+		return false
+	}
+}
+
+const c14Patience = 30 * time.Second
+
 func leakWitness(failed bool, what string) string {
 	if failed {
 		return "a failed snapshot leaves a " + what + " behind"
@@ -263,6 +305,14 @@ func c14Colls() []c14Coll {
 		{name: "one-block+commit-during-snapshot", build: one, tail: true},
 		{name: "two-blocks", build: two},
 		{name: "two-blocks+commit-during-snapshot", build: two, tail: true},
+		{name: "two-blocks-3MB", big: true, build: func(w *model.World) {
+			rows := map[uint32][]model.Write{}
+			for i := 0; i < 24; i++ {
+				rows[uint32(i)] = []model.Write{{Col: "n", V: V(uint64(i))}, {Col: "s", V: model.Val{S: noise(65535, i)}}}
+				rows[uint32(16384+i)] = []model.Write{{Col: "n", V: V(uint64(i))}, {Col: "s", V: model.Val{S: noise(65535, 100+i)}}}
+			}
+			w.SeedReplay(rows)
+		}},
 	}
 }
 
@@ -291,6 +341,16 @@ func init() {
 					units = append(units, &eng.FlatSpec{UnitName: c.name + "/call-index/" + mode, Prop: "C14", Chunk: 8, Outcomes: true,
 						N:    func() int { return get().nCalls + 2 },
 						Case: func(i int) (string, bool, any, []eng.Violation) { return get().run(true, i, forever) }})
+					if c.big {
+						// byte budgets: every s2 frame boundary of the healthy stream, -1 / +0 / +1
+						units = append(units, &eng.FlatSpec{UnitName: c.name + "/byte-budget-at-frame-edges/" + mode, Prop: "C14", Chunk: 4, Outcomes: true,
+							N: func() int { return 3 * len(get().frames) },
+							Case: func(i int) (string, bool, any, []eng.Violation) {
+								b := get()
+								return b.run(false, b.frames[i/3]+i%3-1, forever)
+							}})
+						continue
+					}
 					units = append(units, &eng.FlatSpec{UnitName: c.name + "/byte-budget/" + mode, Prop: "C14", Chunk: 32, Outcomes: true,
 						N:    func() int { return get().nBytes + 8 },
 						Case: func(i int) (string, bool, any, []eng.Violation) { return get().run(false, i, forever) }})
